@@ -25,24 +25,40 @@ pub fn u32_from_be_bytes(a: u8, b: u8, c: u8, d: u8) -> (r: u32) ensures r == sp
 #[verifier::external_body]
 pub fn i32_from_be_bytes(a: u8, b: u8, c: u8, d: u8) -> (r: i32) ensures r == spec_be32(a, b, c, d) as i32 { i32::from_be_bytes([a, b, c, d]) }
 #[verifier::external_body]
+pub fn cmp_min_i32(a: i32, b: i32) -> (r: i32) ensures r == (if a <= b { a } else { b }) { std::cmp::min(a, b) }
+#[verifier::external_body]
 pub fn vec_from_slice(d: &[u8]) -> (r: Vec<u8>) ensures r@ == d@ { d.to_vec() }
 '''
 
 FLOAT = r'''
 // ---- prelude: f64 layer.  Operations are total (IEEE ops never panic); results stay uninterpreted. ----
-pub assume_specification [f64::max] (a: f64, b: f64) -> f64;
-pub assume_specification [f64::min] (a: f64, b: f64) -> f64;
-pub assume_specification [f64::clamp] (a: f64, lo: f64, hi: f64) -> f64;
-pub assume_specification [f64::floor] (a: f64) -> f64;
-pub assume_specification [f64::is_finite] (a: f64) -> bool;
+pub uninterp spec fn spec_f64_max(a: f64, b: f64) -> f64;
+pub uninterp spec fn spec_f64_min(a: f64, b: f64) -> f64;
+pub uninterp spec fn spec_f64_clamp(a: f64, lo: f64, hi: f64) -> f64;
+pub uninterp spec fn spec_f64_floor(a: f64) -> f64;
+pub uninterp spec fn spec_f64_abs(a: f64) -> f64;
+pub uninterp spec fn spec_f64_is_finite(a: f64) -> bool;
+pub assume_specification [f64::max] (a: f64, b: f64) -> (r: f64) ensures r == spec_f64_max(a, b);
+pub assume_specification [f64::min] (a: f64, b: f64) -> (r: f64) ensures r == spec_f64_min(a, b);
+pub assume_specification [f64::clamp] (a: f64, lo: f64, hi: f64) -> (r: f64) ensures r == spec_f64_clamp(a, lo, hi);
+pub assume_specification [f64::floor] (a: f64) -> (r: f64) ensures r == spec_f64_floor(a);
+pub assume_specification [f64::abs] (a: f64) -> (r: f64) ensures r == spec_f64_abs(a);
+pub assume_specification [f64::is_finite] (a: f64) -> (r: bool) ensures r == spec_f64_is_finite(a);
 #[verifier::external_body] pub fn f64_neg_infinity() -> f64 { f64::NEG_INFINITY }
 #[verifier::external_body] pub fn f64_infinity() -> f64 { f64::INFINITY }
-pub mod fax { use vstd::prelude::*; use vstd::std_specs::ops::*;
+// exec comparisons on f64 are specified by vstd through partial_cmp_spec; spec-mode `<` on floats is a different
+// (unlinked) symbol, so contracts use flt/fle/fgt/fge.
+pub open spec fn flt(x: f64, y: f64) -> bool { x.partial_cmp_spec(&y) == Some(core::cmp::Ordering::Less) }
+pub open spec fn fgt(x: f64, y: f64) -> bool { x.partial_cmp_spec(&y) == Some(core::cmp::Ordering::Greater) }
+pub open spec fn fle(x: f64, y: f64) -> bool { x.partial_cmp_spec(&y) == Some(core::cmp::Ordering::Less) || x.partial_cmp_spec(&y) == Some(core::cmp::Ordering::Equal) }
+pub open spec fn fge(x: f64, y: f64) -> bool { x.partial_cmp_spec(&y) == Some(core::cmp::Ordering::Greater) || x.partial_cmp_spec(&y) == Some(core::cmp::Ordering::Equal) }
+pub mod fax { use vstd::prelude::*; use vstd::std_specs::ops::*; use vstd::std_specs::cmp::*;
+#[verifier::external_body] pub broadcast proof fn axiom_f64_obeys_cmp() ensures #[trigger] <f64 as PartialOrdSpec<f64>>::obeys_partial_cmp_spec() {}
 #[verifier::external_body] pub broadcast proof fn axiom_f64_mul_total(a: f64, b: f64) ensures #[trigger] a.mul_req(b) {}
 #[verifier::external_body] pub broadcast proof fn axiom_f64_add_total(a: f64, b: f64) ensures #[trigger] a.add_req(b) {}
 #[verifier::external_body] pub broadcast proof fn axiom_f64_sub_total(a: f64, b: f64) ensures #[trigger] a.sub_req(b) {}
 #[verifier::external_body] pub broadcast proof fn axiom_f64_div_total(a: f64, b: f64) ensures #[trigger] a.div_req(b) {}
-pub broadcast group group_f64_total { axiom_f64_mul_total, axiom_f64_add_total, axiom_f64_sub_total, axiom_f64_div_total }
+pub broadcast group group_f64_total { axiom_f64_obeys_cmp, axiom_f64_mul_total, axiom_f64_add_total, axiom_f64_sub_total, axiom_f64_div_total }
 }
 broadcast use fax::group_f64_total;
 '''
